@@ -162,7 +162,7 @@ pub fn gen_set(rng: &mut Rng, profile: usize, max_size: u64) -> BTreeSet<String>
 
 pub fn gen_cfg(rng: &mut Rng, density_pct: u64) -> Cfg {
     let mut c = Cfg::default();
-    let mut flag = |rng: &mut Rng| rng.below(100) < density_pct;
+    let flag = |rng: &mut Rng| rng.below(100) < density_pct;
     c.digits = flag(rng);
     c.non_digits = flag(rng);
     c.spaces = flag(rng);
